@@ -81,6 +81,9 @@ if __name__ == "__main__":
     out = prompt(sys.argv[1])
     if len(sys.argv) > 2 and sys.argv[2] == "2":
         out += ROUND2.format(pid=sys.argv[1])
-    if len(sys.argv) > 2 and sys.argv[2] == "3":
-        out += ROUND3.format(pid=sys.argv[1], touched=touched(sys.argv[1]))
+    if len(sys.argv) > 2 and sys.argv[2] in ("3", "4"):
+        txt = ROUND3.format(pid=sys.argv[1], touched=touched(sys.argv[1]))
+        if sys.argv[2] == "4":
+            txt = txt.replace("SIX changes", "NINE changes").replace("-7,", "-10,").replace("-8,", "-11,").replace("-9\n", "-12\n").replace("-7 etc.", "-10 etc.")
+        out += txt
     print(out)
